@@ -1,0 +1,42 @@
+//go:build verif
+
+/*
+ * Licensed to the Apache Software Foundation (ASF) under one or more
+ * contributor license agreements.  See the NOTICE file distributed with
+ * this work for additional information regarding copyright ownership.
+ * The ASF licenses this file to You under the Apache License, Version 2.0
+ * (the "License"); you may not use this file except in compliance with
+ * the License.  You may obtain a copy of the License at
+ *
+ *     http://www.apache.org/licenses/LICENSE-2.0
+ *
+ * Unless required by applicable law or agreed to in writing, software
+ * distributed under the License is distributed on an "AS IS" BASIS,
+ * WITHOUT WARRANTIES OR CONDITIONS OF ANY KIND, either express or implied.
+ * See the License for the specific language governing permissions and
+ * limitations under the License.
+ */
+
+package undo
+
+// Verification contracts (comment-only, tag verif): the undo-log record helpers used by the branch
+// rollback (C01/C10). elemh(s, i) is the identity of the i-th element of a slice.
+
+//@ func (*UndologRecord).CanUndo
+//@   prop C10
+//@   requires u != nil
+//@   ensures post: result == (u.LogStatus == UndoLogStatueNormnal)
+//@   nopanic
+
+// Reverse turns the recording order around, in place (so that every alias of b.Logs sees it).
+//@ func (*BranchUndoLog).Reverse
+//@   prop C01
+//@   requires b != nil
+//@   let n := len(b.Logs)
+//@   modifies elems(b.Logs)
+//@   ensures reversed: forall(i, 0, n, elemh(b.Logs, i) == old(elemh(b.Logs, n - 1 - i)))
+//@   ensures same-slice: len(b.Logs) == n
+//@   loop 1 invariant window: 0 <= left && left + right == n - 1 && len(b.Logs) == n
+//@   loop 1 invariant done-left: forall(i, 0, left, elemh(b.Logs, i) == old(elemh(b.Logs, n - 1 - i)))
+//@   loop 1 invariant done-right: forall(i, right + 1, n, elemh(b.Logs, i) == old(elemh(b.Logs, n - 1 - i)))
+//@   loop 1 invariant untouched: forall(i, left, right + 1, elemh(b.Logs, i) == old(elemh(b.Logs, i)))
